@@ -2,7 +2,9 @@
 
 specs: dataset/FilterSpec (oracle), FilterImpl (design), FilterTrace.
 """
+import json
 import random
+import zlib
 
 import numpy as np
 
@@ -243,14 +245,22 @@ MC_RECTS = {  # the MC polygons as unions of rectangles, in units of 1/4
 def replay_histories(ev, rep, tier, seed):
     """exhaustive (edit; apply)* histories, judged step by step against the
     expectations TLC computed"""
-    d = 6 if tier == "quick" else 8
+    d = 6 if tier == "quick" else 7
     cfg = HIST + BASE.format(fix="TRUE", d=d, alt="TRUE")
     res = tlc.run("MC_Filter", cfg, workers=8, timeout=3000)
     ev.add_tlc("MC_Filter history enumeration (exhaustive, depth %d)" % d,
                res)
+    # depth 7: 1.4 million histories; every third schedule (by hash of the
+    # schedule, so that all expectations of a kept schedule are kept)
+    keep = 1 if tier == "quick" else 3
     by_inst = {}
-    for h in res.tagged("H"):
+    for h in res.iter_tagged("H", consume=True):
+        if keep > 1:
+            key = json.dumps([h["inst"], [[s["a"], s["arg"]] for s in h["h"]]])
+            if zlib.crc32(key.encode()) % keep != seed % keep:
+                continue
         by_inst.setdefault(h["inst"], []).append(h["h"])
+    ev.extra["history_schedules_kept"] = "1/%d" % keep
     jobs = []
     for inst, hs in sorted(by_inst.items()):
         groups = hist.group_by_schedule(hs, sched_key, exp_obs)
